@@ -94,7 +94,7 @@ def build_ext(root, verbose=True):
         gens = sorted((os.path.getmtime(os.path.join(CACHE, g)), g)
                       for g in os.listdir(CACHE)
                       if os.path.isdir(os.path.join(CACHE, g)) and '.tmp' not in g)
-        for _, g in gens[:-3]:
+        for _, g in gens[:-16]:
             shutil.rmtree(os.path.join(CACHE, g), ignore_errors=True)
         return dst
     finally:
